@@ -2341,126 +2341,146 @@ func E3ArcExtent(c *core.Ctx, r *core.Report) {
 		delete(defs, rx)
 		delete(defs, ry)
 		ordinal := map[int]int{}
-		for _, s := range cc.Body {
-			is, ok := s.(*ast.IfStmt)
+		// the guarded folds, wherever they sit in the case (also inside a loop over a table of extremes); a tuple
+		// assignment is looked at pair by pair
+		var guarded []*ast.IfStmt
+		ast.Inspect(cc, func(m ast.Node) bool {
+			is, ok := m.(*ast.IfStmt)
 			if !ok {
-				continue
+				return true
 			}
 			guard := false
-			ast.Inspect(is.Cond, func(m ast.Node) bool {
-				if call, ok := m.(*ast.CallExpr); ok {
+			ast.Inspect(is.Cond, func(k ast.Node) bool {
+				if call, ok := k.(*ast.CallExpr); ok {
 					if f := core.CalleeOf(info, call); f != nil && f.Name() == "angleBetween" {
 						guard = true
 					}
 				}
 				return true
 			})
-			if !guard {
-				continue
+			if guard {
+				guarded = append(guarded, is)
 			}
+			return true
+		})
+		for _, is := range guarded {
+			var pairs []*ast.AssignStmt
 			ast.Inspect(is.Body, func(m ast.Node) bool {
 				as, ok := m.(*ast.AssignStmt)
-				if !ok || len(as.Lhs) != 1 || len(as.Rhs) != 1 {
+				if !ok || len(as.Lhs) != len(as.Rhs) {
 					return true
 				}
-				id, ok := as.Lhs[0].(*ast.Ident)
-				if !ok {
-					return true
-				}
-				side := -1
-				for i, a := range accs {
-					if a == core.ObjOf(info, id) {
-						side = i
-					}
-				}
-				name, call := core.MathFunc(info, as.Rhs[0])
-				if side < 0 || (name != "Min" && name != "Max") || len(call.Args) != 2 {
-					return true
-				}
-				axis := side % 2
-				sides := [4]string{"low X", "low Y", "high X", "high Y"}
-				ordinal[side]++
-				key := fmt.Sprintf("canvas.Path.Bounds|%s|extent folded into the %s side", label, sides[side])
-				if ordinal[side] > 1 {
-					key += fmt.Sprintf(" #%d", ordinal[side])
-				}
-				n++
-				// the operand that is not the accumulator
-				var operand ast.Expr
-				for _, a := range call.Args {
-					if aid, ok := core.Unparen(a).(*ast.Ident); ok && core.ObjOf(info, aid) == accs[side] {
-						continue
-					}
-					operand = core.Unparen(a)
-				}
-				if operand == nil {
-					r.Fail("E3.arc-extent", key, c.Pos(as.Pos()), "the fold has no operand besides the accumulator")
-					return true
-				}
-				// idiom 2: a coordinate of the ellipse's position function
-				viaPos := false
-				ast.Inspect(operand, func(k ast.Node) bool {
-					if id, ok := k.(*ast.Ident); ok {
-						if d, ok := defs[core.ObjOf(info, id)]; ok {
-							if call, ok := core.Unparen(d).(*ast.CallExpr); ok {
-								if f := core.CalleeOf(info, call); f != nil && f.Name() == "EllipsePos" {
-									viaPos = true
-								}
-							}
-						}
-					}
-					if call, ok := k.(*ast.CallExpr); ok {
-						if f := core.CalleeOf(info, call); f != nil && f.Name() == "EllipsePos" {
-							viaPos = true
-						}
-					}
-					return true
-				})
-				if viaPos {
-					r.OK("E3.arc-extent", key, c.Pos(as.Pos()), "taken from EllipsePos at the extreme angle")
-					return true
-				}
-				be, ok := operand.(*ast.BinaryExpr)
-				centre := [2]types.Object{cx, cy}[axis]
-				var ext ast.Expr
-				if ok && (be.Op == token.ADD || be.Op == token.SUB) {
-					if cid, ok := core.Unparen(be.X).(*ast.Ident); ok && core.ObjOf(info, cid) == centre {
-						ext = core.Unparen(be.Y)
-					} else if cid, ok := core.Unparen(be.Y).(*ast.Ident); ok && core.ObjOf(info, cid) == centre && be.Op == token.ADD {
-						ext = core.Unparen(be.X)
-					}
-				}
-				if ext == nil {
-					r.Fail("E3.arc-extent", key, c.Pos(as.Pos()), fmt.Sprintf("the folded quantity %s is not the centre coordinate of the %s axis plus or minus a half extent", types.ExprString(operand), []string{"X", "Y"}[axis]))
-					return true
-				}
-				if id, ok := ext.(*ast.Ident); ok {
-					if d, ok := defs[core.ObjOf(info, id)]; ok {
-						ext = core.Unparen(d)
-					}
-				}
-				var got poly
-				decided := false
-				switch name, call := core.MathFunc(info, ext); {
-				case name == "Sqrt" && len(call.Args) == 1:
-					got, decided = polyOf(info, call.Args[0], sym, defs)
-				case name == "Hypot" && len(call.Args) == 2:
-					a, ok1 := polyOf(info, call.Args[0], sym, defs)
-					b, ok2 := polyOf(info, call.Args[1], sym, defs)
-					if ok1 && ok2 {
-						got, decided = polyAdd(polyMul(a, a), polyMul(b, b), 1), true
-					}
-				}
-				switch {
-				case !decided:
-					r.Fail("E3.arc-extent", key, c.Pos(ext.Pos()), fmt.Sprintf("the half extent %s is not the Euclidean length (math.Sqrt of a sum of squares, or math.Hypot) of the axis' two coefficients: want √(%s)", types.ExprString(ext), want[axis]))
-				case !polyEqual(got, want[axis]):
-					r.Fail("E3.arc-extent", key, c.Pos(ext.Pos()), fmt.Sprintf("the half extent is √(%s), want √(%s) for the %s axis", got, want[axis], []string{"X", "Y"}[axis]))
-				default:
-					r.OK("E3.arc-extent", key, c.Pos(as.Pos()), "√("+got.String()+")")
+				for i := range as.Lhs {
+					pairs = append(pairs, &ast.AssignStmt{Lhs: []ast.Expr{as.Lhs[i]}, TokPos: as.Rhs[i].Pos(), Tok: as.Tok, Rhs: []ast.Expr{as.Rhs[i]}})
 				}
 				return true
 			})
+			for _, as := range pairs {
+				visitFold := func(m ast.Node) bool {
+					as, ok := m.(*ast.AssignStmt)
+					if !ok || len(as.Lhs) != 1 || len(as.Rhs) != 1 {
+						return true
+					}
+					id, ok := as.Lhs[0].(*ast.Ident)
+					if !ok {
+						return true
+					}
+					side := -1
+					for i, a := range accs {
+						if a == core.ObjOf(info, id) {
+							side = i
+						}
+					}
+					name, call := core.MathFunc(info, as.Rhs[0])
+					if side < 0 || (name != "Min" && name != "Max") || len(call.Args) != 2 {
+						return true
+					}
+					axis := side % 2
+					sides := [4]string{"low X", "low Y", "high X", "high Y"}
+					ordinal[side]++
+					key := fmt.Sprintf("canvas.Path.Bounds|%s|extent folded into the %s side", label, sides[side])
+					if ordinal[side] > 1 {
+						key += fmt.Sprintf(" #%d", ordinal[side])
+					}
+					n++
+					// the operand that is not the accumulator
+					var operand ast.Expr
+					for _, a := range call.Args {
+						if aid, ok := core.Unparen(a).(*ast.Ident); ok && core.ObjOf(info, aid) == accs[side] {
+							continue
+						}
+						operand = core.Unparen(a)
+					}
+					if operand == nil {
+						r.Fail("E3.arc-extent", key, c.Pos(as.Pos()), "the fold has no operand besides the accumulator")
+						return true
+					}
+					// idiom 2: a coordinate of the ellipse's position function
+					viaPos := false
+					ast.Inspect(operand, func(k ast.Node) bool {
+						if id, ok := k.(*ast.Ident); ok {
+							if d, ok := defs[core.ObjOf(info, id)]; ok {
+								if call, ok := core.Unparen(d).(*ast.CallExpr); ok {
+									if f := core.CalleeOf(info, call); f != nil && f.Name() == "EllipsePos" {
+										viaPos = true
+									}
+								}
+							}
+						}
+						if call, ok := k.(*ast.CallExpr); ok {
+							if f := core.CalleeOf(info, call); f != nil && f.Name() == "EllipsePos" {
+								viaPos = true
+							}
+						}
+						return true
+					})
+					if viaPos {
+						r.OK("E3.arc-extent", key, c.Pos(as.Pos()), "taken from EllipsePos at the extreme angle")
+						return true
+					}
+					be, ok := operand.(*ast.BinaryExpr)
+					centre := [2]types.Object{cx, cy}[axis]
+					var ext ast.Expr
+					if ok && (be.Op == token.ADD || be.Op == token.SUB) {
+						if cid, ok := core.Unparen(be.X).(*ast.Ident); ok && core.ObjOf(info, cid) == centre {
+							ext = core.Unparen(be.Y)
+						} else if cid, ok := core.Unparen(be.Y).(*ast.Ident); ok && core.ObjOf(info, cid) == centre && be.Op == token.ADD {
+							ext = core.Unparen(be.X)
+						}
+					}
+					if ext == nil {
+						r.Fail("E3.arc-extent", key, c.Pos(as.Pos()), fmt.Sprintf("the folded quantity %s is not the centre coordinate of the %s axis plus or minus a half extent", types.ExprString(operand), []string{"X", "Y"}[axis]))
+						return true
+					}
+					if id, ok := ext.(*ast.Ident); ok {
+						if d, ok := defs[core.ObjOf(info, id)]; ok {
+							ext = core.Unparen(d)
+						}
+					}
+					var got poly
+					decided := false
+					switch name, call := core.MathFunc(info, ext); {
+					case name == "Sqrt" && len(call.Args) == 1:
+						got, decided = polyOf(info, call.Args[0], sym, defs)
+					case name == "Hypot" && len(call.Args) == 2:
+						a, ok1 := polyOf(info, call.Args[0], sym, defs)
+						b, ok2 := polyOf(info, call.Args[1], sym, defs)
+						if ok1 && ok2 {
+							got, decided = polyAdd(polyMul(a, a), polyMul(b, b), 1), true
+						}
+					}
+					switch {
+					case !decided:
+						r.Fail("E3.arc-extent", key, c.Pos(ext.Pos()), fmt.Sprintf("the half extent %s is not the Euclidean length (math.Sqrt of a sum of squares, or math.Hypot) of the axis' two coefficients: want √(%s)", types.ExprString(ext), want[axis]))
+					case !polyEqual(got, want[axis]):
+						r.Fail("E3.arc-extent", key, c.Pos(ext.Pos()), fmt.Sprintf("the half extent is √(%s), want √(%s) for the %s axis", got, want[axis], []string{"X", "Y"}[axis]))
+					default:
+						r.OK("E3.arc-extent", key, c.Pos(as.Pos()), "√("+got.String()+")")
+					}
+					return true
+				}
+				visitFold(as)
+			}
 		}
 	}
 	r.Count("E3.arc-extent-folds", n)
